@@ -12,7 +12,7 @@
     and [c03_class] (Judge/J03.v), the classes of known_findings.json being the
     inputs on which it fails. *)
 From Coq Require Import Sorting.Sorted.
-From Verif Require Import Model.Compile Spec.Placeholders Judge.JQ Judge.J03 Proofs.ParamsFacts.
+From Verif Require Import Model.Compile Spec.Placeholders Judge.JQ Judge.J03 Proofs.ParamsFacts Proofs.CompileFacts.
 Open Scope string_scope.
 Open Scope list_scope.
 
@@ -50,6 +50,31 @@ Print Assumptions C03_numbered_partial.
 Theorem C03_orders_agree : orders_agree = true.
 Proof. vm_compute. reflexivity. Qed.
 Print Assumptions C03_orders_agree.
+
+(** ... and on the COMPOSED model (Model/Compile.v parse_query = validate +
+    named-parameter rewrite + findParameters + uniqueParamRefs + sort +
+    resolveCatalogRefs + ...): whenever a statement is accepted, none of its
+    references is dropped or duplicated (c03_class = 0, the complement of the
+    three known-finding classes), the walker found every placeholder
+    (refs_complete) and the numbers have no gap, the query's parameters are
+    numbered 1, 2, ..., k in order.  This is C03_full_statement up to the lexer
+    (pg_marks of the embedded text vs the ParamRef nodes of the AST), which is
+    the parser's business and is compared per case. *)
+Theorem C03_compiled_partial : forall e raw src q,
+  parse_query e raw src false = Ok (Some q) ->
+  c03_class e raw = 0%N -> refs_complete e raw = true ->
+  let nums := map (int_of "Number")
+                  (search (is_kind "ParamRef") (kid "Stmt" (fst (fst (named_parameters (env_engine e) raw))))) in
+  first_gap (dedup_z nums) 1 (List.length (dedup_z nums)) = None ->
+  map p_num (q_params q) = zseq 1 (List.length (dedup_z nums)).
+Proof. exact compiled_params_numbered. Qed.
+Print Assumptions C03_compiled_partial.
+
+(** every parameter a reference resolves to carries that reference's number *)
+Theorem C03_resolve_keeps_number : forall e tables aliases dt names r ps,
+  resolve_one e tables aliases dt names r = Ok ps -> Forall (fun p => p_num p = ref_number r) ps.
+Proof. exact resolve_one_numbers. Qed.
+Print Assumptions C03_resolve_keeps_number.
 
 (** Known findings are real: the model drops / duplicates the parameter. *)
 Example C03_example_numbers :
